@@ -98,4 +98,43 @@ theorem getAt_setAt (v' : JVal) : ∀ (p : List Step) (t c : JVal), getAt t p = 
         | str x => simp [getStep, getArrayElement] at hs
         | obj ms => simp [getStep, getArrayElement] at hs
 
+theorem iterateFrom_all {α : Type} : ∀ (xs : List α) (i : Nat), iterateFrom none none i xs = (xs, true)
+  | [], _ => rfl
+  | x :: r, i => by simp [iterateFrom, iterateFrom_all r (i + 1)]
+
+theorem iterateFrom_stop {α : Type} (fail : Option Nat) : ∀ (xs : List α) (i k : Nat), k < xs.length →
+    (∀ j, fail = some j → j < i ∨ i + k < j) →
+    iterateFrom (some (i + k)) fail i xs = (xs.take (k + 1), true)
+  | [], _, _, h, _ => by simp at h
+  | x :: r, i, 0, _, hf => by
+    have : fail ≠ some i := by
+      intro e; rcases hf i e with h | h <;> omega
+    simp [iterateFrom, this]
+  | x :: r, i, k + 1, h, hf => by
+    have h1 : fail ≠ some i := by
+      intro e; rcases hf i e with h | h <;> omega
+    have h2 : ¬ (i + 1 + k = i) := by omega
+    have ih := iterateFrom_stop fail r (i + 1) k (by simpa using h) (by
+      intro j e; rcases hf j e with h | h
+      · left; omega
+      · right; omega)
+    have e : i + (k + 1) = i + 1 + k := by omega
+    simp [iterateFrom, h1, h2, e, ih]
+
+theorem iterateFrom_fail {α : Type} (stop : Option Nat) : ∀ (xs : List α) (i k : Nat), k < xs.length →
+    (∀ j, stop = some j → j < i ∨ i + k ≤ j) →
+    iterateFrom stop (some (i + k)) i xs = (xs.take (k + 1), false)
+  | [], _, _, h, _ => by simp at h
+  | x :: r, i, 0, _, _ => by simp [iterateFrom]
+  | x :: r, i, k + 1, h, hs => by
+    have h1 : stop ≠ some i := by
+      intro e; rcases hs i e with h | h <;> omega
+    have h2 : ¬ (i + 1 + k = i) := by omega
+    have ih := iterateFrom_fail stop r (i + 1) k (by simpa using h) (by
+      intro j e; rcases hs j e with h | h
+      · left; omega
+      · right; omega)
+    have e : i + (k + 1) = i + 1 + k := by omega
+    simp [iterateFrom, h1, h2, e, ih]
+
 end AwsVerif.Proofs.C11
